@@ -25,7 +25,7 @@ import (
 type runner struct {
 	f    *common.Flags
 	res  *common.Result
-	m    *common.Model
+	m    *lfModel
 	self string
 	prop string
 	rng  *common.RNG
@@ -58,7 +58,7 @@ func main() {
 	}
 	rn := &runner{f: f, res: res, self: self, prop: prop, rng: common.NewRNG(f.Seed)}
 	if f.Model != "" {
-		if m, err := common.StartModel(f.Model); err == nil {
+		if m, err := startLfModel(f.Model); err == nil {
 			rn.m = m
 			defer m.Close()
 		} else {
@@ -98,6 +98,11 @@ func main() {
 		}
 		rn.histPhase()
 		rn.scenarioPhase([]string{"quietread-write", "quietread-create"})
+	}
+	if rn.m != nil {
+		for _, to := range rn.m.timeouts {
+			res.Notes = append(res.Notes, "model request hit its deadline and was abandoned (model restarted): "+to)
+		}
 	}
 	res.Notes = append(res.Notes, fmt.Sprintf("runner phases took %.1fs", time.Since(start).Seconds()),
 		"short writes cannot be injected by strace; they are produced for real with RLIMIT_FSIZE (Transform's tail write, Write) and otherwise covered by the Coq theorems")
